@@ -22,13 +22,13 @@ CHECKS = {
          "every g<=256 x every n<=g+3 (thorough: g<=2048 x 16 characteristic n and 160 large g up to 65535): ranges contiguous, disjoint, covering, balanced; RangeIndex and partition ownership agree with the range table; KeyGroup = reference murmur3 mod g for every key of length <=2 and 29k longer keys; persisted prefixes of state and timer entries equal it; the source runner's real router delivers one key per key group to the owning operator for g in {1..40,255,256,257,1000} x n<=9",
          "'every key' and 'every g with every n' are bounded as stated; reference anchored by published test vectors", "DESIGN.md §5 C05"),
  "C06": ("exploration", "exhaustive enumeration of configurations and orders on the real AssignRanges vs range intersection; bounded exhaustive history enumeration through real dkv databases, KeyedStateStores and TimerStores rescaled with the real AssignRanges and OperatorPartition",
-         "(a) every g<=9 (thorough 12), M,N<=g+2 and every recorded order of the old checkpoints (all permutations for M<=5): each new operator is handed exactly the old checkpoints whose range intersects its own. (b) every history up to depth 3-4 of state puts/deletes, timer set/fire on M old operators (tiny memtables), checkpoint, restore into N operators in every recorded order, an update after the restore, flush and compaction: owners see exactly the shadow state, drained timers are exactly the unfired ones of the operator's key groups; a second part rescales twice",
+         "(a) every g<=9 (thorough 12), M,N<=g+2 and every recorded order of the old checkpoints (all permutations for M<=5): each new operator is handed exactly the old checkpoints whose range intersects its own. (b) every history up to depth 3-4 of state puts/deletes, timer set/fire on M old operators (tiny memtables), checkpoint, restore into N operators in every recorded order, an update after the restore, flush and compaction: owners see exactly the shadow state, drained timers are exactly the unfired ones of the operator's key groups; a second part rescales twice; a third runs put/delete histories of depth 6-7 with ballast entries, so that the old operators' tables are compacted down the levels before a scale-in",
          "operator counts up to 4 and 4 key groups in the end-to-end tier; what a non-owner would read for a foreign key is not judged (never asked)", "DESIGN.md §5 C06"),
  "C07": ("exploration", "bounded exhaustive history enumeration on the real dkv.DB (background flush/compaction held, quiescent, or with the creation of one table file held back, as enumerated actions) vs a map; delay-bounded schedule exploration of designated histories under the cooperative scheduler",
          "every put/delete history up to depth 5-6 over colliding keys under ten tiny option sets; background work completed or held back at every step; Get of every key and ScanPrefix of every prefix after every write, compared with a map; values incl. empty ones; one-table-held tier: the n-th table file creation held back so that a flush lands inside a compaction step; schedule tier: four colliding histories, every schedule within 1-2 delays",
          "single writer; MemoryFilesystem", "DESIGN.md §5 C07"),
  "C18": ("model_checking", "explicit-state breadth-first search over level layouts produced by the real LevelList/Compactor, states cloned and canonicalised, invariants on every transition",
-         "all level layouts reachable within the stated depth by flushes, Compact begin and Compact apply (flushes landing in between) under fourteen compactor settings; contents (Get/ScanPrefix) equal the reference after every step, sorted levels disjoint, no newer version beneath an older one, compaction reaches a fixed point from every state; on a real dkv.DB the creation of the n-th table file is held back so that a flush lands inside a compaction step",
+         "all level layouts reachable within the stated depth by flushes, Compact begin and Compact apply (flushes landing in between) under sixteen compactor settings (level lists of 3-6 levels); contents (Get/ScanPrefix) equal the reference after every step, sorted levels disjoint, no newer version beneath an older one, compaction reaches a fixed point from every state; on a real dkv.DB the creation of the n-th table file is held back so that a flush lands inside a compaction step",
          "depth-bounded; three keys, seven flush images, at most three level-0 tables; sequence numbers rank-normalised in the state key", "DESIGN.md §5 C18"),
  "C08": ("fault_enumeration", "bounded exhaustive history enumeration on the real dkv.DB x every crash point (snapshot of the file set after every mutating storage operation), restore of every retained handle on every snapshot vs the map captured at the Checkpoint call",
          "every history up to depth 5-6 over put/delete/Checkpoint/retention update/restore (same or new directory)/hold+release of background work; after every storage operation following the return of a handle, a fresh dkv.Open on a copy of the files must reproduce the captured map, not panic and accept new writes; a schedule part calls Checkpoint while flushes are in flight under the cooperative scheduler (every schedule within 1-2 delays); background work optionally held from the start, or a warm-up of two flushed entries before the history; every history ends with a quiescent final checkpoint probed the same way",
@@ -37,8 +37,8 @@ CHECKS = {
          "single database: every history up to depth 5-6 over write burst / Checkpoint / retention update / reopen in the same process (old object dropped or kept, same or new directory) / forced GC; neighbours: rescale 1->N with the real OperatorPartition policy, simulated operator processes (own file names), every combination of neighbour answers (truthful / error / hang) and every order of bursts, job checkpoints (also ones that never complete job-wide), retention notifications and GC up to depth 4-6, with focused parts for an operator redeployed twice in one process and for a pending job checkpoint; the ownership guard ExclusivelyOwnsTable itself under the cooperative scheduler with 1-3 neighbours x six behaviours x every interleaving within 3-6 delays",
          "GC completeness depends on the collector finding the garbage (deletions that are reported are real); simulated processes share one Go heap; MemoryFilesystem", "DESIGN.md §5 C09"),
  "C10": ("exploration", "bounded exhaustive operation-sequence enumeration with state-key pruning on the real TimerRegistry/TimerStore over a real dkv.DB vs a set of pending timers",
-         "every sequence up to depth 5-7 over SetTimer / AdvanceWatermark / checkpoint+restore with 1-2 upstreams and per-key-group cache capacities of 0,1,2,3,unlimited timers; each advance must deliver exactly the pending timers at or below the minimum upstream watermark, once, in order; final drain",
-         "three subject keys in two key groups, four timestamps; non-decreasing upstream watermarks; large memtable (the database is C07/C08's subject)", "DESIGN.md §5 C10"),
+         "every sequence up to depth 5-7 over SetTimer / AdvanceWatermark / checkpoint+restore with 1-2 upstreams, stamps on a seconds and on a nanoseconds scale and per-key-group cache capacities of 0,1,2,3,unlimited timers; each advance must deliver exactly the pending timers at or below the minimum upstream watermark, once, in order; final drain",
+         "three subject keys in two key groups, four timestamps; explored by worker processes that share one table of expanded states and are replaced when the iterator coroutines leaked by the code under test fill their heap; non-decreasing upstream watermarks; large memtable (the database is C07/C08's subject)", "DESIGN.md §5 C10"),
  "C11": ("exploration", "delay-bounded exhaustive schedule exploration of a real SourceRunner (watermark values in the operator streams) + exhaustive merge-order enumeration against a real Operator (minimum over upstreams)",
          "source runner: as C04, the k-th watermark equal in all streams, non-decreasing, exactly one nanosecond below the largest forwarded timestamp (bounds when a stream has not received it yet); operator: 1-3 upstreams, every merge order of 4-5 messages (events, timer-setting events, watermarks): the watermark the handler is told and the timers that fire follow the minimum over upstreams, unreported = epoch",
          "non-decreasing watermarks per runner in the operator part", "DESIGN.md §5 C11"),
